@@ -50,9 +50,10 @@ T = {
          "each generated (audio, parameters) is run through nine containers and long/short/both spellings and compared with the single model output (Split.v)",
          "trusted: Coq kernel; " + REALS + "; " + CORR, "Rocq/Coq proof (model is a function of decoded audio + resolved parameters) + container/spelling correspondence"),
  "C10": ("reader", "proof", "fixed framing = chunks; overlap k-th block closed form, count and last-block lemmas; limiter = firstn; rejects",
-         "IO/Reader.v written by hand from util.py's wrapper stack; tied by exhaustive small-grid + random correspondence over buffer/raw/wav sources",
+         "IO/Reader.v written by hand from util.py's wrapper stack; the constructor arithmetic (block / hop / budget sizes and the rejects) is sliced and translated from util.py on every run and proved equal to Reader.reader_params for all float inputs (TieReader.v); "
+         "read / rewind behaviour tied by exhaustive small-grid + random correspondence over buffer/raw/wav sources",
          "trusted: Coq kernel; no axioms for the framing theorems; Flocq binary64 for the duration->samples conversions; " + CORR,
-         "Rocq/Coq proof (closed form by induction on the step function) + exhaustive small-scope correspondence"),
+         "Rocq/Coq proof (closed form by induction on the step function) + translation tie of the constructor arithmetic + exhaustive small-scope correspondence"),
  "C11": ("source", "proof", "cursor machine refines 'successive slices of one byte string': invariant over all op sequences, read/position/seek/rewind/close laws, error cases leave the state unchanged",
          "IO/Source.v written by hand from io.py's BufferAudioSource and file/stdin sources; tied on every run by translation (groups buf, fsrc: BufferAudioSource.read / position / position_ms and FileAudioSource.read with the raw, wave and stdin "
          "_read_from_stream, proved equal to Source.bstep / fstep for all states and sizes: TieBuf.v, TieFsrc.v) and by random + exhaustive short op sequences on buffer, raw-file, wav-file and stdin sources (incl. megabyte sources and requests up to 2^64)",
@@ -89,8 +90,8 @@ T = {
          "IO/Wav.v, Source.v, Pcm.v; the bytes auditok writes are compared with wav_encode, save/load round trips eager and lazy, skip/max_read grids", "trusted: Coq kernel; " + REALS + " (skip/max_read conversions); " + CORR,
          "Rocq/Coq proof (codec round trip, slicing law) + file-level correspondence"),
  "C19": ("reader", "proof", "recorded data = the consumed prefix (each sample once, never beyond the limit); replay after rewind = the C10 block sequence of the data; guards",
-         "IO/Reader.v recorder layer; tied by exhaustive small configurations x histories read^k rewind ... on Recorder and AudioReader(record=True)", "trusted: Coq kernel; no axioms; " + CORR,
-         "Rocq/Coq proof (induction over histories) + exhaustive history correspondence"),
+         "IO/Reader.v recorder layer; constructor arithmetic tied by translation (TieReader.v), recorder behaviour by exhaustive small configurations x histories read^k rewind ... on Recorder and AudioReader(record=True)", "trusted: Coq kernel; no axioms; " + CORR,
+         "Rocq/Coq proof (induction over histories) + translation tie of the constructor arithmetic + exhaustive history correspondence"),
 }
 
 NOT_READY = {}   # id -> reason  (properties whose harness is not wired yet)
